@@ -313,7 +313,16 @@ fn c31_case(c: &ClusterCase) -> CaseResult {
             open = None;
         }
     }
-    // oracle B: same committed log, same state
+    // oracle B: same committed log, same state - judged only once the restarted node has executed
+    // every index the leader has executed; a node that is still catching up when the wall-clock
+    // limit expires (loaded machine) is an undecided case, not a verdict
+    let ended = |text: &str| -> std::collections::BTreeSet<u64> { text.lines().filter_map(|l| l.strip_prefix("end ").and_then(|i| i.trim().parse().ok())).collect() };
+    let leader_done = ended(&std::fs::read_to_string(&p.nodes[leader].trace).unwrap_or_default());
+    let late_done = ended(&full);
+    if !caught_up && !leader_done.is_subset(&late_done) {
+        ci.label("undecided: the restarted node had not executed every committed action within 40 s");
+        return Ok(ci);
+    }
     if !caught_up {
         let mismatch = last.is_some();
         return Err(Fail::new(
